@@ -293,22 +293,23 @@ type LoopSpec struct {
 }
 
 type Contract struct {
-	Fn        string // as written after "func"
-	File      string
-	Requires  []Clause
-	Ensures   []Clause
-	Modifies  []string // raw mod specs; nil slice + HasModifies=false => "modifies nothing" must be proved
-	HasMod    bool
-	Loops     map[int]*LoopSpec
-	Inline    bool
-	Trusted   bool // contract is assumed, body not verified (external / out of subset); listed in evidence
-	Nullable  map[string]bool
-	Props     []string // property ids this contract serves
-	Lets      []Clause // let name = expr (Label = name)
-	Ghost     []Binder
-	NoPanic   bool
-	Cases     []*Contract
-	TrustWhy  string
+	Fn         string // as written after "func"
+	File       string
+	Requires   []Clause
+	Ensures    []Clause
+	Modifies   []string // raw mod specs; nil slice + HasModifies=false => "modifies nothing" must be proved
+	HasMod     bool
+	Loops      map[int]*LoopSpec
+	Inline     bool
+	Inlines    []string // callees (substring of their short name) whose bodies are inlined in this function even if they have a contract
+	Trusted    bool     // contract is assumed, body not verified (external / out of subset); listed in evidence
+	Nullable   map[string]bool
+	Props      []string // property ids this contract serves
+	Lets       []Clause // let name = expr (Label = name)
+	Ghost      []Binder
+	NoPanic    bool
+	Cases      []*Contract
+	TrustWhy   string
 	AllowPanic bool
 	Uses       []string // global invariants assumed at entry and proved at exit
 	Merge      bool     // use state merging from the start (many symmetric paths)
@@ -339,7 +340,7 @@ type ContractFile struct {
 
 var clauseKeywords = map[string]bool{"func": true, "requires": true, "ensures": true, "modifies": true, "loop": true,
 	"inline": true, "trusted": true, "nullable": true, "props": true, "spec": true, "let": true, "ghost": true,
-	"immutable": true, "protects": true, "allowpanic": true, "mutable": true, "ginv": true, "uses": true, "merge": true, "maintains": true}
+	"immutable": true, "protects": true, "allowpanic": true, "mutable": true, "ginv": true, "uses": true, "merge": true, "maintains": true, "inlines": true}
 
 func ParseContractFile(path string, into *ContractFile) error {
 	data, err := os.ReadFile(path)
@@ -495,6 +496,8 @@ func ParseContractFile(path string, into *ContractFile) error {
 				cur.Merge = true
 			case "inline":
 				cur.Inline = true
+			case "inlines":
+				cur.Inlines = append(cur.Inlines, strings.Fields(rest)...)
 			case "allowpanic":
 				cur.AllowPanic = true
 			case "trusted":
